@@ -362,7 +362,7 @@ class MHRun:
     def _refs(self, info):
         refs = {"ref_logd": info.get("ref_logd"), "ref_grad": info.get("ref_grad"),
                 "ref_loglik": info.get("ref_loglik"), "p_logd": info.get("logd"),
-                "p_forward": info.get("forward")}
+                "p_forward": info.get("forward"), "p_grad": info.get("grad")}
         if FAMILY[self.kind] == "pcn":
             m, C, Cinv = _prior_moments(self.sc["target"])
             refs.update(prior_mean=m, prior_C=C, prior_Cinv=Cinv)
@@ -385,6 +385,16 @@ class MHRun:
                 return None
             return kind if ctx.sched.random() < rate else None
         probe.fault_pred = pred
+        # outside the support the gradient is not finite either: when the log-density evaluation at a point was
+        # faulted, the gradient evaluated next at the same point returns NaN
+        pg = oracle.refs.get("p_grad")
+        if pg is not None and probe is oracle.refs.get("p_logd"):
+            def gpred(n, args):
+                tr = probe.trace
+                if tr and tr[-1][2] is not None and bit_equal(tr[-1][0][0], args[0]):
+                    return "nan"
+                return None
+            pg.fault_pred = gpred
 
     def run(self):
         if self.iface == "exp":
@@ -452,7 +462,7 @@ class MHRun:
                     s2, info2 = zoo.build_exp_sampler(ctx, sc, callback=cb)
                     s2.load_checkpoint("ck")
                 refs2 = self._refs(info2)
-                o.refs.update(p_logd=refs2["p_logd"], p_forward=refs2["p_forward"])
+                o.refs.update(p_logd=refs2["p_logd"], p_forward=refs2["p_forward"], p_grad=refs2.get("p_grad"))
                 self._arm_faults(refs2["p_logd"] if FAMILY[self.kind] != "pcn" else refs2["p_forward"], o)
                 s = s2
                 box["s"] = s
